@@ -340,6 +340,11 @@ def build(p):
   D = 'native/C12.py'
   p.native('', D, 'equiv')
   v_regularizer_sites(p)
+  # each algorithm instance is a function of ITS OWN hyper-parameters: no builder / round function keeps module-level or
+  # closure state across instances (a trainer cache keyed without the proximal weight makes FedProx(0) != FedAvg)
+  from . import C10
+  C10.v_frames(p, files=[f'fedjax/algorithms/{a}.py' for a in ('fed_prox', 'mime', 'mime_lite', 'hyp_cluster', 'apfl')],
+               min_sites=5)
   v_fedprox(p)
   v_mimelite(p)
   v_mime_onestep(p)
